@@ -20,11 +20,16 @@ CLAIM = dict(
           'y_min <= y_max. (5) C15_minmax_from_absmax + C15_optima_tt_exact_full: with k >= number of elements the reported minimum '
           'and maximum are the true ones (any sign pattern, ties, constant tensors). '
           '(6) C15_qtt_agrees / C15_optima_qtt_exact_full: optima_qtt is optima_tt on the quantised tensor with indices mapped back by '
-          'ind_qtt_to_tt; in-bounds, values are entries of Y, exact for k >= number of elements; rejected shapes give ValueError. '
+          'ind_qtt_to_tt; in-bounds, values are entries of Y, exact for k >= number of elements GIVEN that the quantisation preserves the '
+          'values (contract qtt_ok_at; the parameter e of optima_qtt is an ABSOLUTE accuracy, default 1e-12, so tensors of small magnitude '
+          'need a smaller e; it is applied to every TT-core separately -- checked numerically with e = 0 and e = 1e-12*min(1, scale) for scales 2^-498..2^498); rejected shapes give ValueError. '
           'REFUTED on the code and listed as known finding C15/rank1-minmax-second-beam: "for every rank-1 tensor with any k the '
           'reported minimum AND maximum are the true ones" -- only the maximum-modulus one is (theorem 3); the opposite-sign optimum '
           'comes from a second beam on the squared shifted tensor of rank up to 4 (C15_rank1_minmax_refuted is a concrete exact '
           'counterexample on the model; the search replays it on the implementation). '
+          'Second known finding C15/optima_tt-squared-shift-underflow (floating point, outside the real-number theorems): when the entries are '
+          'below ~1e-154 or above ~1e+154 the squared shifted tensor underflows / overflows and optima_tt reports a wrong opposite-sign '
+          'optimum (or raises) even for k >= number of elements; the maximum-modulus search is unaffected. '
           '(7) functional variant (Model/OptimaFunc.v: _find_poly_max, the point bookkeeping of _step_top_k, and the rank-1 path in full): '
           'C15_func_cand_absmax [reals, extreme value theorem + Fermat from Coq Ranalysis]: the candidate list (end points + real roots '
           'of the derivative in [-1,1]) carries a maximiser of |p| over [-1,1]; '
@@ -43,6 +48,8 @@ CLAIM = dict(
           'every index is then optimal). External routines are Section variables with contracts: argsort (a permutation that sorts '
           'ascending), orthogonalize(use_stab=True) (same shape, a fixed multiple of the same tensor, rank 1 stays rank 1), 2**(p/d) '
           '(non-zero), x**(1/d) in const (d-th power gives x back), tt_to_qtt (value preservation under ind_qtt_to_tt). '
+          'Observation (not a violation: undocumented input form, fails loudly): optima_func_tt_beam raises UFuncTypeError for coefficient cores of '
+          'integer dtype; the TT routines accept integer dtype, tuples, Fortran order and numpy-integer k unchanged. '
           'Non-vacuity: C15_contracts_satisfiable, C15_example_* (C15_example_func_rank1: factor x^2 - 1/4 with the explicit root oracle [0, 1/2, -1/2]).'),
     technique='Coq proof (beam invariant by induction over the visited cores, order arguments at R) + '
               'model/implementation correspondence with replayed oracles + brute-force oracle on the dense tensor')
@@ -951,6 +958,10 @@ def _oracle_tt(tn, Y, k, rank1=None, form=None, kform=None, shared=False):
 
     def fail(what, got=None, expected=None):
         return dict(what=what, input=inp, got=got, expected=expected)
+    stage = 'max-modulus'
+    # known finding K2: the entries are so small / large that (Y - y1)^2 leaves the normal double range (underflow to 0 or
+    # overflow to inf): only the second pass of optima_tt is affected, the maximum-modulus search itself is right
+    out_of_range = (sc * sc < 2.3e-308) or not np.isfinite(4.0 * sc * sc)
     try:
         # beam, both directions, single result and whole table
         for l2r in (True, False):
@@ -980,6 +991,7 @@ def _oracle_tt(tn, Y, k, rank1=None, form=None, kform=None, shared=False):
             if abs(float(y)) < abs(float(Fd[tuple(int(a) for a in ib)])) - tol:
                 return fail('optima_tt_max returns a smaller modulus than the beam of one sweep direction (l2r=%s)' % l2r,
                             float(y), float(Fd[tuple(int(a) for a in ib)]))
+        stage = 'optima_tt'
         i_min, y_min, i_max, y_max = _quiet(tn.optima_tt, mk(), kk)
         if not (_inb(i_min, ns) and _inb(i_max, ns)):
             return fail('optima_tt returns a multi-index outside the tensor bounds', [np.asarray(i_min).tolist(), np.asarray(i_max).tolist()], ns)
@@ -996,19 +1008,27 @@ def _oracle_tt(tn, Y, k, rank1=None, form=None, kform=None, shared=False):
             # (found by the second beam on the squared shifted tensor of rank up to 4) is wrong.  Anything else stays a violation.
             r1 = all(G.shape[0] == 1 and G.shape[2] == 1 for G in Y)
             big, big_true = ((y_max, Fd.max()) if abs(float(y_max)) >= abs(float(y_min)) else (y_min, Fd.min()))
-            if r1 and k < N and abs(abs(float(big)) - sc) <= tol and abs(float(big) - float(big_true)) <= tol:
+            if out_of_range and abs(abs(float(big)) - sc) <= tol and abs(float(big) - float(big_true)) <= tol:
+                f['what'] = ('optima_tt: the squared shifted tensor (Y - y1)^2 leaves the normal double range, the opposite-sign optimum '
+                             'is not the true one')
+                f['finding_key'] = 'C15/optima_tt-squared-shift-underflow'
+            elif r1 and k < N and abs(abs(float(big)) - sc) <= tol and abs(float(big) - float(big_true)) <= tol:
                 f['what'] = ('optima_tt on a rank-1 tensor with k < number of elements: the opposite-sign optimum (second beam on '
                              'the squared shifted tensor) is not the true one')
                 f['finding_key'] = 'C15/rank1-minmax-second-beam'
             return f
     except Exception as e:  # noqa
-        return fail('optimum search raised on a valid tensor: ' + repr(e)[:200])
+        f = fail('optimum search raised on a valid tensor: ' + repr(e)[:200])
+        if out_of_range and stage == 'optima_tt' and isinstance(e, (OverflowError, ValueError, FloatingPointError)):
+            f['what'] = 'optima_tt raises: the squared shifted tensor (Y - y1)^2 overflows the double range: ' + repr(e)[:120]
+            f['finding_key'] = 'C15/optima_tt-squared-shift-underflow'
+        return f
     if obj is not None and not _same_arg(obj, Y, form):
         return fail('the optimum search modified its argument (repeated calls on the same tensor object)')
     return None
 
 
-def _oracle_qtt(tn, Y, k, form=None, kform=None, shared=False):
+def _oracle_qtt(tn, Y, k, form=None, kform=None, shared=False, e=None):
     ns = [G.shape[1] for G in Y]
     n = ns[0]
     q = n.bit_length() - 1
@@ -1017,13 +1037,14 @@ def _oracle_qtt(tn, Y, k, form=None, kform=None, shared=False):
     sc = max(float(np.max(np.abs(Fd))), 1e-300)
     tol = 1e-9 * sc
     inp = dict(Y=[np.asarray(G, dtype=float).tolist() for G in Y], k=k, qtt=True, form=getattr(form, '__name__', None),
-               kform=getattr(kform, '__name__', None), shared=shared)
+               kform=getattr(kform, '__name__', None), shared=shared, e=e)
+    ea = () if e is None else (e,)      # e is the ABSOLUTE accuracy of the quantisation (default 1e-12)
     mk, kk, obj = _argmaker(Y, k, form, kform, shared)
 
     def fail(what, got=None, expected=None):
         return dict(what=what, input=inp, got=got, expected=expected)
     try:
-        i_min, y_min, i_max, y_max = _quiet(tn.optima_qtt, mk(), kk)
+        i_min, y_min, i_max, y_max = _quiet(tn.optima_qtt, mk(), kk, *ea)
         if not (_inb(i_min, ns) and _inb(i_max, ns)):
             return fail('optima_qtt returns a multi-index outside the tensor bounds', [np.asarray(i_min).tolist(), np.asarray(i_max).tolist()], ns)
         if abs(float(y_min) - Fd[tuple(int(a) for a in i_min)]) > tol or abs(float(y_max) - Fd[tuple(int(a) for a in i_max)]) > tol:
@@ -1031,7 +1052,7 @@ def _oracle_qtt(tn, Y, k, form=None, kform=None, shared=False):
         if float(y_min) > float(y_max) + tol:
             return fail('optima_qtt reports y_min > y_max', [float(y_min), float(y_max)])
         # agreement with optima_tt on the quantised tensor, indices mapped back (little-endian bits, by hand)
-        Zq = _quiet(tn.tt_to_qtt, copy_tt(Y), 1.E-12, 100)
+        Zq = _quiet(tn.tt_to_qtt, copy_tt(Y), 1.E-12 if e is None else e, 100)
         b_min, _, b_max, _ = _quiet(tn.optima_tt, Zq, k)
         back = lambda b: [sum(int(b[j * q + t]) << t for t in range(q)) for j in range(len(ns))]
         if back(b_min) != np.asarray(i_min).tolist() or back(b_max) != np.asarray(i_max).tolist():
@@ -1041,7 +1062,7 @@ def _oracle_qtt(tn, Y, k, form=None, kform=None, shared=False):
             return fail('optima_qtt misses the true minimum / maximum although k >= number of elements',
                         [float(y_min), float(y_max)], [float(Fd.min()), float(Fd.max())])
         if shared:      # history: a second call on the same object must give the same answer
-            j_min, z_min, j_max, z_max = _quiet(tn.optima_qtt, mk(), kk)
+            j_min, z_min, j_max, z_max = _quiet(tn.optima_qtt, mk(), kk, *ea)
             if np.asarray(j_min).tolist() != np.asarray(i_min).tolist() or np.asarray(j_max).tolist() != np.asarray(i_max).tolist():
                 return fail('optima_qtt: a second call on the same tensor object gives a different result',
                             [np.asarray(j_min).tolist(), np.asarray(j_max).tolist()], [np.asarray(i_min).tolist(), np.asarray(i_max).tolist()])
@@ -1085,10 +1106,6 @@ def _oracle_func(tn, A, k, k_loc=None, form=None, kform=None, shared=False, reps
         return dict(what='optima_func_tt_beam modified its argument', input=inp)
     return None
 
-
-
-# scale findings on the UNCHANGED tree, reported to the lead (key, power of two applied to the tensor 'q', routine)
-SCALE_FINDINGS = [('C15/qtt-absolute-eps-small-scale', -63, 'qtt'), ('C15/optima_tt-squared-shift-underflow', -996, 'tt')]
 
 
 def _oracle_cross(tn, A, k):
@@ -1250,8 +1267,8 @@ def search(R, ctx, deep, hints):
             push(_oracle_func(tn, A, k, None, shared=True, reps=3))
             push(_oracle_cross(tn, A, k))
     # (b) SCALE: exact powers of two (the dense reference scales exactly); rank 1 with any k for the maximum modulus, k >= N for
-    # everything.  Ranges: optima_tt squares the shifted entries, so 2^-498 .. 2^498 (1e-150 .. 1e150); optima_qtt calls
-    # tt_to_qtt(Y, e=1e-12) whose accuracy is ABSOLUTE, so only scales >= 1.  Outside these ranges see SCALE_FINDINGS below.
+    # everything.  Ranges: optima_tt squares the shifted entries, so 2^-498 .. 2^498 (1e-150 .. 1e150; outside: known finding K2);
+    # optima_qtt with the DEFAULT e = 1e-12 (an absolute accuracy) only for scales >= 1, with an adequate e at every scale (below).
     for pw in (-63, -100, -498, 63, 100, 332, 498):
         for name, Y in base:
             Ys = copy_tt(Y)
@@ -1265,17 +1282,29 @@ def search(R, ctx, deep, hints):
                 n_eval += 1
                 fam['scale'] = fam.get('scale', 0) + 1
                 push(_oracle_qtt(tn, Ys, N + 1))
-    # regression inputs of scale findings reported to the lead; each becomes active once its key is listed in known_findings.json
-    reg = {kf.get('key') for kf in C.known_findings('C15')}
-    for key, pw, which in SCALE_FINDINGS:
-        if key in reg:
-            Ys = copy_tt(base[3][1])
+    # optima_qtt with an ADEQUATE accuracy: e is the absolute accuracy of tt_to_qtt (default 1e-12), so for a scaled tensor the
+    # caller passes e = 0 or e = 1e-12 * min(1, scale); then k >= N must give the true minimum / maximum at every scale
+    for pw in (-498, -100, -63, -20, 0, 63, 100, 332, 498):
+        for name, Y in base:
+            if not isq(Y):
+                continue
+            Ys = copy_tt(Y)
             Ys[0] = Ys[0] * 2.0 ** pw
-            f = (_oracle_qtt if which == 'qtt' else _oracle_tt)(tn, Ys, nelem(Ys) + 1)
-            n_eval += 1
-            if f:
-                f['finding_key'] = key
-                push(f)
+            # tt_to_qtt applies e to every TT-core separately (absolute); the scale sits in the first core only, so an adequate e
+            # is 1e-12 times the smaller of 1 and the scale
+            for e in (0.0, 1e-12 * min(1.0, 2.0 ** pw)):
+                for k in (nelem(Ys), nelem(Ys) + 1):
+                    n_eval += 1
+                    fam['scale-qtt-e'] = fam.get('scale-qtt-e', 0) + 1
+                    push(_oracle_qtt(tn, Ys, k, e=e))
+    # known finding K2 (C15/optima_tt-squared-shift-underflow): fixed regression inputs, underflow (2^-996: wrong opposite-sign
+    # optimum) and overflow (2^600: optima_tt raises); the oracle tags exactly this family
+    for pw in (-996, 600):
+        Ys = copy_tt(base[0][1])
+        Ys[0] = Ys[0] * 2.0 ** pw
+        n_eval += 1
+        fam['scale-K2'] = fam.get('scale-K2', 0) + 1
+        push(_oracle_tt(tn, Ys, nelem(Ys) + 1))
     # (c) ARGUMENT FORMS: tuple instead of list, integer dtype cores, Fortran-ordered cores, numpy integer k
     for name, Y in base[:2] + base[3:4]:
         N = nelem(Y)
@@ -1349,7 +1378,7 @@ def replay(data):
     elif 'A' in inp:
         f = _oracle_func(tn, [np.array(G, dtype=float) for G in inp['A']], inp['k'], inp.get('k_loc'), reps=inp.get('reps', 1), **fk)
     elif 'Y' in inp and inp.get('qtt'):
-        f = _oracle_qtt(tn, [np.array(G, dtype=float) for G in inp['Y']], inp['k'], **fk)
+        f = _oracle_qtt(tn, [np.array(G, dtype=float) for G in inp['Y']], inp['k'], e=inp.get('e'), **fk)
     elif 'Y' in inp and inp.get('order_only'):
         f = _oracle_order(tn, [np.array(G, dtype=float) for G in inp['Y']], inp['k'])
     elif 'Y' in inp:
